@@ -19,8 +19,8 @@ inline ValueType toVal(const std::string& s) { return ValueType(s.begin(), s.end
 struct CppOps : TaskOps {
   TaskInterface ti;
   explicit CppOps(TaskInterface ti) : ti(ti) {}
-  void request(const std::string& key, uintptr_t id) override { ti.request(KeyType(key), id); }
-  void requestSingleUse(const std::string& key, uintptr_t id) override { ti.requestSingleUse(KeyType(key), id); }
+  void request(const std::string& key, uintptr_t id) override { ti.request(KeyType(key), wireInputID(id)); }
+  void requestSingleUse(const std::string& key, uintptr_t id) override { ti.requestSingleUse(KeyType(key), wireInputID(id)); }
   void mustFollow(const std::string& key) override { ti.mustFollow(KeyType(key)); }
   void discovered(const std::string& key) override { ti.discoveredDependency(KeyType(key)); }
   void complete(const std::string& value, bool force) override { ti.complete(toVal(value), force); }
@@ -38,7 +38,7 @@ struct CppTask : Task {
   CppTask(Ctx& cx, int key) : core(cx, key) {}
   void start(TaskInterface ti) override { CppOps o(ti); core.onStart(o); }
   void providePriorValue(TaskInterface, const ValueType& v) override { core.onPrior(toStr(v)); }
-  void provideValue(TaskInterface ti, uintptr_t id, const KeyType& key, const ValueType& v) override { CppOps o(ti); std::string kn = key.str(); core.onProvide(o, id, &kn, toStr(v)); }
+  void provideValue(TaskInterface ti, uintptr_t id, const KeyType& key, const ValueType& v) override { CppOps o(ti); std::string kn = key.str(); core.onProvide(o, unwireInputID(id), &kn, toStr(v)); }
   void inputsAvailable(TaskInterface ti) override { CppOps o(ti); core.onInputsAvailable(o); }
 };
 
